@@ -160,8 +160,10 @@ func (w *c17World) peerData() {
 	vkernel.PeerSends(w.fd, wsEncode(nil, &wsFrame{fin: true, opcode: 2, n: 1, payload: vf.Bytes("data", 1)}))
 }
 
-func c17New() *c17World {
-	vkernel.Reset(vkernel.Config{Batch: 2, MaxWaits: 12})
+func c17New() *c17World { return c17NewCfg(vkernel.Config{Batch: 2, MaxWaits: 12}) }
+
+func c17NewCfg(cfg vkernel.Config) *c17World {
+	vkernel.Reset(cfg)
 	w := &c17World{ioc: sonic.MustIO()}
 	w.fd = vkernel.NewStream()
 	vkernel.PeerSends(w.fd, nil) // the harness is the peer from the start: input is exactly what it scripts
@@ -316,6 +318,29 @@ func VerifC17_ReadPendingThenClose() {
 	vf.Reach("end")
 }
 
+// quiesce: the peer sends data until no read is outstanding, the loop runs (eager polls do not branch),
+// then the application flushes what the read path has queued (a Pong for a Ping processed by the last read).
+func (w *c17World) quiesce() {
+	vkernel.K.Cfg.Eager = true
+	vkernel.K.Cfg.MaxWaits = 0
+	for p := 0; p < 6; p++ {
+		if w.readOut {
+			w.peerData()
+		}
+		w.ioc.PollOne()
+		w.ioc.PollOne()
+	}
+	flushed := 0
+	w.s.AsyncFlush(func(err error) {
+		flushed++
+		vf.Assert("final-flush-ok", err == nil)
+	})
+	for p := 0; p < 4; p++ {
+		w.ioc.PollOne()
+	}
+	vf.Assert("final-flush-completes-once", flushed == 1)
+}
+
 // Free histories: k steps, each one of {start a read (loop or single), start an application write,
 // the peer sends a Ping, the peer sends data, one poll cycle with a symbolic batch}, then the loop is
 // run to quiescence and the application flushes. Every started operation completes exactly once; the
@@ -343,25 +368,41 @@ func VerifC17_History() {
 	if w.readOut && w.writeOut {
 		vf.Reach("opt:read-and-write-in-flight-together")
 	}
-	// quiescence: the peer sends data until no read is outstanding, the loop runs, then the application flushes
-	vkernel.K.Cfg.Eager = true
-	vkernel.K.Cfg.MaxWaits = 0 // eager polls do not branch
-	for p := 0; p < 6; p++ {
-		if w.readOut {
-			w.peerData()
-		}
-		w.ioc.PollOne()
-		w.ioc.PollOne()
-	}
-	flushed := 0
-	w.s.AsyncFlush(func(err error) {
-		flushed++
-		vf.Assert("final-flush-ok", err == nil)
-	})
-	for p := 0; p < 4; p++ {
-		w.ioc.PollOne()
-	}
-	vf.Assert("final-flush-completes-once", flushed == 1)
+	w.quiesce()
 	w.finishWith(false)
+	vf.Reach("end")
+}
+
+// Partial socket transfers: the kernel takes only a part of a frame per write (every split point of the
+// 7-byte frames) and hands the scripted input over in pieces; a read and an application write are in
+// flight together in either order. Same oracle: every operation completes exactly once, whole frames
+// on the wire, each once, in order.
+func VerifC17_PartialIO() {
+	w := c17NewCfg(vkernel.Config{Batch: 2, MaxWaits: 12, AllowPartial: true, SplitPartial: true, MaxShort: vf.Bound("short-transfers", 2, 3)})
+	vf.Unwind(64)
+	if vf.Bool("write-first") {
+		w.startWrite()
+		if vf.Bool("poll-between") {
+			w.ioc.PollOne()
+		}
+		w.startRead()
+	} else {
+		w.startRead()
+		if vf.Bool("poll-between") {
+			w.ioc.PollOne()
+		}
+		w.startWrite()
+	}
+	if vf.Bool("ping-too") {
+		w.peerPing()
+	}
+	w.quiesce()
+	w.finishWith(false)
+	if vkernel.K.Shorts > 0 {
+		vf.Reach("short-transfer")
+	}
+	if len(vkernel.K.FDs[w.fd].Accepted) > 0 {
+		vf.Reach("wrote")
+	}
 	vf.Reach("end")
 }
